@@ -89,7 +89,18 @@ def locate(doc, coords):
     table = container_positions(doc)
     out = []
     nodes = []
+    slice_run = {}      # (id(parent), ref) -> how many results shared it
+    flat = []
     for crd in coords:
+        # an array slice is reported as ONE result wrapping its elements
+        if isinstance(crd, NodeCoords) and isinstance(crd.node, list) \
+                and crd.node and isinstance(crd.parent, list) \
+                and all(isinstance(e, NodeCoords) and e.parent is crd.parent
+                        for e in crd.node):
+            flat.extend(crd.node)
+        else:
+            flat.append(crd)
+    for crd in flat:
         if not isinstance(crd, NodeCoords):
             return None
         node = crd.node
@@ -119,6 +130,13 @@ def locate(doc, coords):
                 return None
             if ref < 0:
                 ref += len(parent)
+            # the elements of an array slice [m:n] are all reported with
+            # parentref m (deleting slot m repeatedly removes the slice):
+            # the j-th result sharing (parent, m) sits in slot m + j
+            key = (id(parent), ref)
+            offset = slice_run.get(key, 0)
+            slice_run[key] = offset + 1
+            ref += offset
             if not 0 <= ref < len(parent) or parent[ref] is not node:
                 return None
             out.append(ppos + (("i", ref),))
@@ -231,7 +249,7 @@ def gen_path(rng, tree, want="any"):
         if roll < 0.56:
             lo = last[1] - size
             hi = lo + 1
-            text = "[%d:%d]" % (lo, hi) if hi < 0 else "[%d:]" % lo
+            text = "[%d:%d]" % (lo, hi if hi < 0 else size)
             return join(base, text, sep), "negative-slice"
         if roll < 0.62:
             lo = rng.randrange(0, last[1] + 1)
